@@ -116,12 +116,15 @@ def timeouts(plan, sched):
     long one (it must return early); one the model lets expire gets a short one (it must not return
     before it)."""
     ends = [s["k"] for s in sched if s["a"] == 0 and s["k"].startswith("pollret")]
+    enters = [s for s in sched if s["a"] == 0 and s["k"] == "poll"]
     out, k = [], 0
     for i, mode in enumerate(plan):
         if mode == "timeout":
             end = ends[k] if k < len(ends) else "pollret-expired"
+            rdy = enters[k].get("rdy", False) if k < len(enters) else False
             k += 1
-            out.append(8000 if end == "pollret-ready" else SHORT[i % len(SHORT)])
+            # readable before the call: any timeout will do, take a tiny one (0, 0.3, 1 ms ...)
+            out.append(SHORT[i % len(SHORT)] if (rdy or end != "pollret-ready") else 8000)
         else:
             out.append(0)
     return out
